@@ -202,4 +202,24 @@ def replayFrom (log : List Ev) (frm : Nat) : List Ev := if frm = 0 then [] else 
 /-- the revision setupWatch asks for after a load that returned revision `rev` (translated guard `rev != 0`) -/
 def watchFrom (rev : Nat) : Nat := if rev ≠ 0 then rev + 1 else 0
 
+
+/-! ### the deadline of each attempt of `load` (`ctx, cancel := context.WithTimeout(cli.Ctx(), RequestTimeout)` INSIDE the loop) -/
+
+/-- one Get: how long etcd takes to answer, and the snapshot it answers with -/
+structure GetTry where
+  dur : Nat
+  kvs : List (Nat × Nat)
+  deriving Repr, DecidableEq
+
+/-- `load` over time.  `fresh = true`: every attempt gets a deadline of its own (`timeout` from ITS start) — the code;
+`fresh = false`: one deadline for the whole loop (the context created before the loop), `elapsed` of it is used up.
+An attempt whose answer does not arrive before the deadline fails (at the deadline, or at once when it has passed),
+the loop cools down and tries again. -/
+def loadCtx (fresh : Bool) (timeout cool : Nat) : Nat → List GetTry → Option (List (Nat × Nat))
+  | _, [] => none
+  | elapsed, g :: rest =>
+    let used := if fresh then 0 else elapsed
+    if used + g.dur ≤ timeout then some g.kvs
+    else loadCtx fresh timeout cool (elapsed + min g.dur (timeout - used) + cool) rest
+
 end GoZero.C13
